@@ -54,8 +54,18 @@ fn eval_surface(root: &PathBuf, tag: usize, w: i32, h: i32, px: &[u32]) -> Resul
                 return Err(("byte-view-order".into(), format!("pixel {} = {:#010x}: bytes {:x?}, expected B,G,R,A = {:x?}", i, p, &bytes[4 * i..4 * i + 4], want)));
             }
         }
-        // writes through one view are visible through the others
-        for i in 0..n {
+        // writes through one view are visible through the others (every position on small
+        // surfaces; the positions around 0, powers of two, the middle and the end on large ones)
+        let positions: Vec<usize> = if n <= 64 {
+            (0..n).collect()
+        } else {
+            let mut v: Vec<usize> = vec![0, 1, 255, 256, 16383, 16384, 65535, 65536, n / 2, n - 2, n - 1];
+            v.retain(|&i| i < n);
+            v.sort();
+            v.dedup();
+            v
+        };
+        for i in positions {
             let old = dt.get_data()[i];
             dt.get_data_mut()[i] = 0xa1b2c3d4;
             if dt.get_data_u8()[4 * i..4 * i + 4] != [0xd4, 0xc3, 0xb2, 0xa1] {
@@ -245,6 +255,40 @@ impl Check for C19 {
                 }
             });
         }
+        // large surfaces (more than 16384 / 65536 pixels, rows longer than 16384 pixels): whole
+        // patterns whose zero words and non-zero words alternate with periods prime to any
+        // power of two, and half-painted canvases
+        let big: Vec<(i32, i32)> = if q { vec![(200, 200), (16400, 1), (1, 16400), (16385, 2), (300, 300)] } else { vec![(200, 200), (16400, 1), (1, 16400), (16385, 2), (300, 300), (70000, 1), (3, 40000), (1024, 70)] };
+        run.bound("large surfaces", format!("{:?} x 4 whole-surface patterns (period-251 palette with zero words, top half painted, bottom half painted, one-hot far end)", big));
+        run.par(big.len() * 4, |s, l| {
+            let (w, h) = big[s / 4];
+            let n = (w * h) as usize;
+            let pal = |k: usize| -> u32 {
+                match k % 7 {
+                    0 | 3 => 0,
+                    1 => 0xff000000 | ((k % 251) as u32) << 8,
+                    2 => 0x80402010,
+                    4 => 0x01010101,
+                    5 => 0xfe7f00fe,
+                    _ => 0x00000000 | (((k % 251) as u32 / 2) << 24) | ((k % 251) as u32 / 4),
+                }
+            };
+            let px: Vec<u32> = match s % 4 {
+                0 => (0..n).map(|k| pal(k % 251 + k / 251)).collect(),
+                1 => (0..n).map(|k| if k < n / 2 { pal(k % 251 + 1) | 0xff000000 } else { 0 }).collect(),
+                2 => (0..n).map(|k| if k >= n / 2 { 0xff336699 } else { 0 }).collect(),
+                _ => (0..n).map(|k| if k == n - 1 || k == 0 { 0xffabcdef } else { 0 }).collect(),
+            };
+            l.states += 1;
+            l.transitions += 8 + 2 * n as u64;
+            l.traces += 1;
+            l.evals += 1;
+            l.nontrivial += 1;
+            match eval_surface(&root, 7000 + s, w, h, &px) {
+                Ok(hh) => l.outcome(hh),
+                Err(e) => run.report(7000 + s, e),
+            }
+        });
         // every (a, c <= a) pair, for each colour channel: un-premultiply must be floor(c*255/a)
         run.bound("unpremultiply table", "all 32896 (alpha, colour <= alpha) pairs x 3 channel positions, as 256-pixel-wide surfaces through write_png".to_string());
         run.par(3 * 16, |s, l| {
